@@ -208,6 +208,17 @@ def await_parallel(eng, st, p, node):
     env_j = p['env']            # callee param env as functions of j (z3 terms mentioning j)
     eng.used_contracts.add(c.qual)
     eng.use_axioms(c)
+    # no element: nothing happens
+    t_, f_ = eng.branch(st, n <= 0)
+    out0 = []
+    if t_ is not None:
+        if c.ret is not None and c.ret != NONE:
+            out0.append(Res(t_, eng.L_empty(c.ret)))
+        else:
+            out0.append(Res(t_, mk_none()))
+    if f_ is None:
+        return out0
+    st = f_
     pre = st.copy()
     # preconditions for every element
     for i, r in enumerate(c.requires):
@@ -242,4 +253,4 @@ def await_parallel(eng, st, p, node):
     ns.old = st.old
     eng.notes.append('parallel-for rule applied to %s at line %s (A-PARSTABLE)'
                      % (c.qual, getattr(node, 'lineno', '?')))
-    return [Res(ns, results if results is not None else mk_none())]
+    return out0 + [Res(ns, results if results is not None else mk_none())]
